@@ -1,4 +1,90 @@
-"""C11 — not built yet."""
+"""C11 — plugins see the compiler's AST and options, and their answers are honoured (DESIGN.md §5.11)."""
+import json, os
+from vlib import core
+
+THEOREMS = ["Props.C11." + t for t in [
+    "schema_ok", "codec_roundtrip", "request_roundtrip", "response_roundtrip", "write_ends_with_stop",
+    "compress_decompress", "trailer_detected", "trailer_absent", "trailer_ignored_by_reader",
+    "version_gate", "params_order", "fault_fails", "answer_honoured", "warnings_shown_on_failure"]]
+
+
 def run(ctx):
-    print("C11: no check built yet")
-    return 2
+    exe = ctx.go_build("c11")
+    plug = ctx.go_build("c11plugin")
+    thriftgo = None
+    try:
+        thriftgo = ctx.go_build_repo(".", "thriftgo-c11")
+    except core.MachineryError as e:
+        ctx.obligation("build:thriftgo", False, str(e)[-2000:])
+    ctx.trusted += [
+        "translator harness/cmd/c11 extract (AST.thrift + protocol.thrift parsed and resolved by the repository's own parser; "
+        "typedefs dereferenced with semantic.Deref; fields ordered by id; union members optional)",
+        "correspondence harness harness/cmd/c11 run vs tv_c11 (reflection bridge c11lib between the repository's Go types and VL values)",
+        "recording plugin harness/cmd/c11plugin and the thriftgo binary built from the repository (process level, runtime-observed)",
+        "OS process creation, pipes, exec.CommandContext's kill on timeout (observed, not modelled)"]
+    ctx.assumptions += [
+        "the fast codec of k-AST.go/k-protocol.go computes what Gen.Std.write/read compute on the regenerated schema "
+        "(checked on every generated request, both directions, bytes up to Go map iteration order)",
+        "pointer graphs of includes are modelled by their unfolding; the Go memo map of pointers by a key set plus the pointees' final contents",
+        "include compression is reached through the verif export hooks (a locally built plugin never reports thriftgo >= v0.4.2)",
+        "cloudwego/gopkg BinaryProtocol (ReadFieldBegin, Skip, Append*) as modelled by Core.Wire",
+        "process level is runtime-observed: exit status, stderr, output tree, request digest recorded by the plugin, /proc/<pid> after the time limit"]
+    ctx.partial += ["process faults (exit code, timeout kill, pipes) are observed at run time, the theorem fault_fails covers the decision logic only",
+                    "decompress with the compressor's own map (the deferred revert in Execute) is proved but reachable in-process only through the nil-map path",
+                    "request_roundtrip states byte-equality of re-encoding (decoded object writes the same bytes), not Go-level DeepEqual: nil and empty containers are identified"]
+    if exe and ctx.replay:
+        cmd = [exe, "replay", "-repo", core.REPO, "-file", ctx.replay]
+        if thriftgo and plug:
+            cmd += ["-thriftgo", thriftgo, "-plugin", plug]
+        rc, out = core.sh(cmd, timeout=600)
+        fails = []
+        if rc == 0:
+            try:
+                fails = json.loads(out.strip().split("\n")[-1])
+            except Exception:
+                raise core.MachineryError("c11 replay: unparsable output: " + out[-1000:])
+        else:
+            raise core.MachineryError("c11 replay failed: " + out[-2000:])
+        for f in fails:
+            ctx.add_violation(f["key"], f["what"], f["input"], f["expected"], f["observed"])
+        ctx.cov["evaluations"] = 1
+        return ctx.finish(rule="replay of one recorded input")
+    if exe:
+        rc, gen = core.sh([exe, "extract", "-repo", core.REPO])
+        if rc != 0:
+            ctx.obligation("translator:c11-extract", False, gen[-2000:])
+        else:
+            ctx.obligation("translator:c11-extract", True)
+            ctx.write_generated("C11Schema", gen)
+    built = ctx.lake_build(["ThriftVerif.Props.C11"], "lake-build:Props.C11 (includes SchemaOK of the regenerated schema by decide)")
+    drv = ctx.lake_build(["tv_c11"], "lake-build:tv_c11")
+    if built:
+        ctx.audit("C11", THEOREMS)
+        if ctx.tier == "thorough":
+            ctx.leanchecker(["ThriftVerif.Props.C11"])
+    if exe:
+        cmd = [exe, "run", "-repo", core.REPO, "-dir", ctx.work, "-seed", str(ctx.seed), "-tier", ctx.tier]
+        if thriftgo and plug:
+            cmd += ["-thriftgo", thriftgo, "-plugin", plug]
+        rc, out = core.sh(cmd, timeout=3000)
+        if rc != 0:
+            raise core.MachineryError("c11 run failed: " + out[-2000:])
+        st = json.load(open(os.path.join(ctx.work, "stats.json")))
+        ctx.cov.update(evaluations=st["evaluations"], distinct_nontrivial=st["distinct_nontrivial"], samples=st["samples"],
+                       distribution=st["distribution"], exhaustive=False,
+                       process_level="runtime-observed: %d plugin executions through the thriftgo binary" % st["distribution"].get("process:plugin-executions", 0))
+        rej = st["distribution"].get("program:rejected", 0)
+        acc = st["distribution"].get("program:accepted", 0)
+        ctx.obligation("generator:programs-accepted", acc > 0 and rej * 10 <= acc + rej,
+                       "%d accepted, %d rejected by the front end" % (acc, rej))
+        for f in (st.get("oracle_failures") or []):
+            ctx.add_violation(f["key"], f["what"], f["input"], f["expected"], f["observed"])
+        if drv:
+            model = ctx.run_model("tv_c11", os.path.join(ctx.work, "ops.txt"))
+            ctx.diff_lines("c11", os.path.join(ctx.work, "ops.txt"), os.path.join(ctx.work, "impl.txt"), model)
+    return ctx.finish(rule="requests over ASTs of generated multi-file IDL programs (every node kind, resolved and unresolved, optional members toggled, "
+                           "diamond includes shared by pointer) and type-directed synthetic Request/Response values; each through Marshal (model write, bytes "
+                           "compared up to map order), Unmarshal (model read, canonical dumps compared), with and without include compression; include trees "
+                           "(consistent shared/unshared, inconsistent, marker names); trailer, version and option strings; process scenarios through the thriftgo "
+                           "binary with a recording plugin. Non-trivial: request with at least one definition or include, tree with more than two nodes, "
+                           "non-empty strings; distinct by sha256 of the op line")
